@@ -848,3 +848,9 @@ func (e *Exec) ZeroResults(fn *ssa.Function) Val {
 	}
 	return tv
 }
+
+// NondetError returns an error value that is nil or non-nil depending on a boolean input.
+func (e *Exec) NondetError(name string) Val {
+	fails := e.Input(name, "bool", types.Typ[types.Bool])
+	return &IfaceIte{C: fails, A: e.mkError(&StrV{Conc: "stubbed failure " + name}).(*IfaceV), B: &IfaceV{}}
+}
